@@ -402,6 +402,18 @@ fn run(m: &Mon, a: &Args) -> i32 {
         viol_json.push(J::obj(vec![("key", J::s(f.key.clone())), ("observed", J::u(f.count)), ("what", J::s(f.desc.clone())), ("replay", J::s(path))]));
     }
 
+    // event log for the offline checker
+    let trace_path = format!("{}/evidence/traces/{}-{}.jsonl", a.verif, m.id, a.tier.name());
+    let _ = std::fs::remove_file(&trace_path);
+    if !rep.trace.is_empty() {
+        let _ = std::fs::create_dir_all(format!("{}/evidence/traces", a.verif));
+        let mut text = rep.trace.join("\n");
+        text.push('\n');
+        if std::fs::write(&trace_path, text).is_ok() {
+            rep.extra.push(("trace_file".into(), J::s(trace_path.clone())));
+            rep.extra.push(("trace_events".into(), J::u(rep.trace.len() as u64)));
+        }
+    }
     let wall = t0.elapsed().as_secs_f64();
     let verdict = if !violations.is_empty() {
         "violated"
